@@ -214,8 +214,38 @@ def illegal_class(key, uni, prefix):
     return "legal"
 
 
+def suite_with_contracts(res):
+    """the repository's own unit suite as one more workload, with the C14/C15/C20 contracts switched on"""
+    import json
+    import os
+    import subprocess
+    import tempfile
+    fd, path = tempfile.mkstemp(suffix=".json")
+    os.close(fd)
+    env = dict(os.environ, VERIF_CONTRACT_REPORT=path, PYTHONPATH=os.pathsep.join([common.VERIF, common.REPO]))
+    try:
+        p = subprocess.run([common.PY, "-m", "pytest", "-p", "vk.pytest_contracts", "-q", "-p", "no:cacheprovider",
+                            "-o", "addopts=", "-m", "unit", "pymemcache/test"],
+                           cwd=common.REPO, env=env, stdout=subprocess.PIPE, stderr=subprocess.STDOUT, timeout=900)
+        rep = json.load(open(path))
+    except Exception as e:
+        res.count("suite_with_contracts_not_run")
+        return
+    finally:
+        try:
+            os.unlink(path)
+        except OSError:
+            pass
+    res.count("suite_tests_run_under_contracts", rep["counters"].get("tests_passed", 0) + rep["counters"].get("tests_failed", 0))
+    res.count("suite_contract_evaluations", rep["counters"].get("contract_evaluations", 0))
+    for nodeid, why in rep.get("failed_by_contract", []):
+        res.violation("contract-fires-in-the-repository-suite", "%s: %s" % (nodeid, why[-300:]), ("suite", nodeid))
+
+
 def shard(tier, seed, idx, n):
     res = common.Result()
+    if idx == 0:
+        suite_with_contracts(res)
     st = install(res)
     import pymemcache.client.base as base
     import pymemcache.client.hash as hashmod
